@@ -49,6 +49,9 @@ def batch(call_ids: List[Any], doc: Any, strict: bool) -> Tuple[str, Any]:
     if len(nonnull) != len(ids):
         # the statement does not say whom a null-id element in an array answers; what it does say is that a server
         # error is raised to the caller: if every call is answered, the null-id elements must at least survive
+        if strict and (missing or extra):
+            # an element without id answers nobody in particular: it cannot stand in for the answer a call is waiting for
+            return ('identity', 'missing' if missing else 'unexpected')
         if missing or extra:
             return ('open', 'null-id-element-with-missing-or-unasked-ids')
         nulls = [r for r in doc if r['id'] is None]
